@@ -597,6 +597,11 @@ pub fn at_quiescence(w: &mut World) {
                 w.flag("c20.starved", || format!("a sibling that stays Pending holds up progress: {why}"));
             }
         }
+        // the family properties (C04..C10, C19) state what the combinator delivers once its children have made the
+        // progress that permits it; a combinator that is stuck although progress is owed delivers none of it
+        if matches!(w.prop, "C04" | "C05" | "C06" | "C07" | "C08" | "C09" | "C10" | "C19") {
+            w.flag_current("live", || format!("quiescent with the combinator Pending although progress is owed: {why}"));
+        }
         let fam = w.node(ROOT).fam;
         match fam {
             Family::FutGroup => w.flag("c11.live", || format!("group stuck: {why}")),
